@@ -729,6 +729,13 @@ fn to_list(ctx: &Context, top: &Number, list: &[&str]) -> Result<Vec<NumberParts
                 unit.show(ctx)
             )));
         }
+        // The parts of a negative unit would not share the sign of the value.
+        if unit.value < Numeric::zero() {
+            return Err(QueryError::generic(format!(
+                "Unit list contains a unit with a negative value: <{}>",
+                unit.show(ctx)
+            )));
+        }
         if i == len - 1 {
             out.push(&value / &unit.value);
         } else {
